@@ -183,10 +183,10 @@ func buildPlan(id string, pinned map[string]string, tier string) *Plan {
 		p := &Plan{ID: id}
 		p.Units = append(p.Units, Unit{Pkg: "./fiat-shamir", Tags: "", Groups: []string{"transcript"}})
 		p.Trusted = []string{"interface hash.Hash (assumed contracts): Write does not retain its argument, Sum(nil) returns a newly allocated slice",
-			"escape analysis of the VC generator: an argument slice counts as retained when it (or a local object holding it) is stored into memory reachable after the call"}
-		p.NotCovered = []string{"the hashed content of a challenge (name, previous value, bindings in order) is not under contract: the map of challenges and the lists of bound values are not modelled",
+			"option functional-nested-slices: the rows of the list of bound values are functions of the row index (ComputeChallenge only reads them)", "escape analysis of the VC generator: an argument slice counts as retained when it (or a local object holding it) is stored into memory reachable after the call"}
+		p.NotCovered = []string{"the map of challenges is not modelled: that Bind appends its copy to the record of the named challenge, that the record ComputeChallenge reads is the one Bind wrote, and 'recomputing returns the same bytes' are not under contract (what ComputeChallenge hashes from the record it reads is)",
 			"'errors leave the transcript unchanged' is only covered as far as the error paths return before any update (guards), not as a frame condition on the map"}
-		p.Note = "Bind: unknown / already computed challenges are refused with the documented errors, the bound slice is copied (the argument is never retained). ComputeChallenge: unknown challenge refused; a challenge at position > 0 is computed only if the previously computed challenge is its immediate predecessor; every returned slice is freshly allocated (not aliased with transcript state)."
+		p.Note = "Bind: unknown / already computed challenges are refused with the documented errors, the bound slice is copied (the argument is never retained). ComputeChallenge: unknown challenge refused; a challenge at position > 0 is computed only if the previously computed challenge is its immediate predecessor; every returned slice is freshly allocated (not aliased with transcript state); the writes made to the hash before the digest is taken are, in order, the bytes of the name, the previous challenge's value when the position is not 0, and every bound value of the record in binding order (none skipped, none repeated), and the digest returned is the result of Sum(nil) taken after exactly these writes."
 		return p
 	case "C16":
 		p := &Plan{ID: id}
